@@ -192,6 +192,55 @@ func tokenizeRule(x *Ctx, f *ssa.Function) {
 		}
 	}
 	x.C.Obl("C14.R1", "boundary-emits:tokenize", x.pos(f), "whenever the loop tests ofs < col and it holds, the pending token is appended", bad == "", bad)
+	// a token boundary is placed only outside quotes: the loop carries a quote state (a variable other than the
+	// list, the offset and the column), and every iteration that restarts the offset has tested it. A separator
+	// honoured inside quotes cuts a quoted key in two, and Parse refuses a well-formed selector.
+	var quote []string
+	for name := range phiByName {
+		if name != ofs && name != col && name != tk {
+			quote = append(quote, name)
+		}
+	}
+	sort.Strings(quote)
+	if op := phiByName[ofs]; op != nil && len(quote) > 0 {
+		badQ, nQ := "", 0
+		var seenPol map[string]map[bool]bool
+		for _, p := range ps {
+			if p.End != paths.EndLatch {
+				continue
+			}
+			nv := p.LatchValue(op)
+			if nv == nil || nv.String() == ofs {
+				continue
+			}
+			nQ++
+			tested := false
+			for _, fc := range p.Facts {
+				for _, q := range quote {
+					if fc.Atom.Contains(q) {
+						tested = true
+						if seenPol == nil {
+							seenPol = map[string]map[bool]bool{}
+						}
+						if seenPol[fc.Atom.String()] == nil {
+							seenPol[fc.Atom.String()] = map[bool]bool{}
+						}
+						seenPol[fc.Atom.String()][fc.Pol] = true
+					}
+				}
+			}
+			if !tested {
+				badQ += "an iteration starts a new token without having looked at the quote state (" + strings.Join(quote, ", ") + "):\n" + p.String() + "\n"
+			}
+		}
+		// ... and with one outcome: a test of the quote state that a cut passes with either answer decides nothing
+		for a, pols := range seenPol {
+			if pols[true] && pols[false] {
+				badQ += "new tokens are started whether " + a + " holds or not: the quote state does not decide the cut\n"
+			}
+		}
+		x.C.Obl("C14.R1", "cuts-outside-quotes:tokenize", x.pos(f), "every iteration that starts a new token has tested the quote state the loop carries, with one and the same outcome", badQ == "" && nQ > 0, firstLines(badQ, 12))
+	}
 }
 
 func parseAppendRule(x *Ctx, f *ssa.Function) {
